@@ -348,7 +348,9 @@ def r7_stack_order(ctx):
     for s in grow:
         recv = peel(f.expr_operand(s.args[0], s.b, 'T'))
         own = any(x[0] == 'arg' and x[1] == 1 for x in walk(recv))
-        ctx.check(own and f.postdominates_entry(s.b) and not [a for _, a in f.guard_atoms(s.b)], 'append-at-end',
+        hdr = innermost_loop(f, s.b)
+        whole = f.postdominates_entry(s.b) if hdr is None else (loop_exits_only_on_exhaustion(f, hdr) and f.postdominates_entry(hdr))
+        ctx.check(own and whole and not [a for _, a in f.guard_atoms(s.b) if a and a[0] in ('bool', 'cmp')], 'append-at-end',
                   "append extends the stack's own element vector at its end, unconditionally (the existing elements keep their positions)", s.where())
     n = 0
     for g in P.fn_list:
